@@ -35,7 +35,7 @@ NOT_APPLICABLE.update({
     "C14": "Listener::handle wraps the same Connection::listen script: " + _LOGIN,
     "C15": "Listener::handle wraps the same Connection::listen script: " + _LOGIN,
     "C11": "harness written (engines/k/src/c11.rs, SHA-1 compression stubbed) but num-bigint's limb arithmetic and radix conversion do not finish under CBMC within 30 min even for 3 symbolic digest bytes",
-    "C12": "within reach of the erased-copy engine (request parameters recorded by a reqwest model) but not built in the time available; the defect found by reading is fixed (329a042)",
+    "C12": "harness written (engines/x/harness/passage-adapters-http/c12.rs: erased MojangAdapter::authenticate against a recording reqwest model, minecraft_hash stubbed, reference URL/query parser) but the solver phase runs out of memory on the unchanged tree, so no conclusive check could be registered; the defect found by reading is fixed (329a042)",
     "C18": "within reach of the erased-copy engine (filters/strategies against a reference evaluator) but not built in the time available",
     "C19": "needs tonic/prost generated code (build script with protoc) inside the scratch workspace and SocketAddr Display/FromStr under CBMC; not attempted",
 })
@@ -187,14 +187,14 @@ PROPS["C11"]["claimed"] = False  # harnesses do not finish in 30 min (num-bigint
 
 
 PROPS["C07"] = {
-    "level_text": "Bounded model checking of the real receive_packet / handle_keep_alive / keep_alive() (erased copy) from an arbitrary keep-alive state, one step each: a timer firing sends exactly one Keep Alive and records its id only if none is outstanding; with one outstanding it sends the localized timeout Disconnect, reads nothing more and fails with MissedKeepAlive; outside the keep-alive phases a tick does nothing; an echo clears only the equal id; the timer period is <= 16 s with missed ticks skipped.",
+    "level_text": "Bounded model checking of the real receive_packet / handle_keep_alive / keep_alive() (erased copy) from an arbitrary keep-alive state, one step each: a timer firing sends exactly one Keep Alive and records its id only if none is outstanding; with one outstanding it sends the localized timeout Disconnect, reads nothing more and fails with MissedKeepAlive; outside the keep-alive phases a tick does nothing; an echo clears only the equal id and never pushes the timer's next firing back; the timer period is <= 16 s with missed ticks skipped.",
     "level_note": "Trusted: Kani/CBMC; erasure R1-R14 - in particular R2: the winner of each select! is an environment choice at frame granularity, so wall-clock spacing follows from tokio's Interval contract (modelled) and mid-frame timer firings are outside (C08). Not covered here: the end-to-end statement that a prompt client still receives the correct Transfer after arbitrarily long routing (needs the whole login script, DESIGN §1.13).",
     "assumptions": ["timer firings are nondeterministic choices between frames (R2)", "keep-alive ids come from the model clock"],
     "explanation": "one-step rules from an arbitrary state cover histories of any length",
     "harnesses": [
         H("verif_c07::proofs::interval_configuration", pkg="passage-protocol", desc="period <= 16 s, MissedTickBehavior::Skip", bounds="-", timeout_s=900, mem_gb=12, symbolic=False),
         H("verif_c07::proofs::tick_rules", pkg="passage-protocol", desc="one tick from any state: send/record, or Disconnect+MissedKeepAlive, or nothing", bounds="any outstanding id, keep_alive flag", timeout_s=1800, mem_gb=16, kani_args=FS),
-        H("verif_c07::proofs::echo_rules", pkg="passage-protocol", desc="echo clears iff equal", bounds="all u64 ids", timeout_s=900, mem_gb=12),
+        H("verif_c07::proofs::echo_rules", pkg="passage-protocol", desc="echo clears iff equal; handling an echo never re-arms the keep-alive timer (next Keep Alive stays due one period after the previous)", bounds="all u64 ids", timeout_s=900, mem_gb=12),
     ],
 }
 NOT_APPLICABLE.pop("C07", None)
